@@ -14,7 +14,7 @@ import (
 func init() { register("C14", c14) }
 
 func c14(p *an.Prog, r *an.R, tier string) {
-	r.Explanation = "C14 (structural clause): sibling agreement of the two blob-reading paths of the git indexer. createDocument (go-git) and indexCatfileBlobs (git cat-file) build their index.Document values with the same set of fields, take name/branches/sub-repository from the same sources (fileKey.FullPath(), repos[key].Branches, fileKey.SubRepoPath), share skippedDoc for placeholders, and decide 'too large' with the same comparison (size > SizeMax and not IgnoreSizeMax(full path)) mapped to the same SkipReason. Does NOT decide branch-set merging per blob, ignore matching, the slab allocator or the streaming protocol (value-level)."
+	r.Explanation = "C14 (structural clause): sibling agreement of the two blob-reading paths of the git indexer. createDocument (go-git) and indexCatfileBlobs (git cat-file) build their index.Document values with the same set of fields, take name/branches/sub-repository from the same sources (fileKey.FullPath(), repos[key].Branches, fileKey.SubRepoPath), share skippedDoc for placeholders, and decide 'too large' with the same comparison (size > SizeMax and not IgnoreSizeMax(full path)) mapped to the same SkipReason. (R3) the tree walk records a (path, blob) for a branch only after that branch's ignore matcher did not match. Does NOT decide branch-set merging per blob, ignore matching, the slab allocator or the streaming protocol (value-level)."
 	r.Rule("C14.R1", "the index.Document literals of createDocument and indexCatfileBlobs set the same fields from the same kind of source expressions")
 	r.Rule("C14.R2", "both paths apply the size rule as `size > SizeMax && !IgnoreSizeMax(fullPath)` and map it to SkipReasonTooLarge through skippedDoc")
 	c14Ignore(p, r)
